@@ -3,6 +3,7 @@ from __future__ import annotations
 
 import ast
 import itertools
+from fractions import Fraction
 
 from .. import dag, effects as E
 from ..core import AnalysisError
@@ -83,90 +84,6 @@ def matches(test, k, fn):
     return None
 
 
-class Interp:
-    def __init__(self, fn_node):
-        self.fn = fn_node
-        self.name = fn_node.name
-        self.branches = []
-        for st in fn_node.body:
-            if isinstance(st, ast.Expr) and isinstance(st.value, ast.Constant):
-                continue
-            if isinstance(st, ast.If) and len(st.body) == 1 and isinstance(st.body[0], ast.Return) and not st.orelse:
-                self.branches.append((st.test, st.body[0].value))
-            elif isinstance(st, ast.Return):
-                self.branches.append((None, st.value))
-            else:
-                raise AnalysisError(f"raw_field has a statement the abstract interpreter does not know: `{stmt_text(st)[:80]}`")
-
-    def plain(self, k, depth=0):
-        """(is the result plain?, reason)"""
-        if depth > 6:
-            return False, "recursion too deep"
-        for test, ret in self.branches:
-            if test is not None:
-                m = matches(test, k, self.fn)
-                if m is None:
-                    raise AnalysisError(f"cannot decide the branch test `{ast.unparse(test)}` of {self.name}")
-                if not m:
-                    continue
-            return self.result(ret, k, depth)
-        return False, "falls off the end"
-
-    def elem(self, k):
-        return k[1] if not isinstance(k, str) else None
-
-    def result(self, e, k, depth):
-        txt = ast.unparse(e)
-        head = kind_head(k)
-        if txt == "value":
-            if head in PLAIN_LEAF:
-                return True, "builtin"
-            if head in ("list", "dict", "tuple"):
-                ok, why = self.passthrough(self.elem(k))
-                return ok, f"container returned unchanged: {why}"
-            return False, f"{head} returned unchanged"
-        if isinstance(e, ast.Call) and isinstance(e.func, ast.Attribute) and ast.unparse(e.func.value) == "value" and e.func.attr in ("tolist", "item"):
-            return head in ("ndarray", "npfloat64", "npother"), f".{e.func.attr}()"
-        if isinstance(e, ast.Call) and isinstance(e.func, ast.Name) and e.func.id in ("float", "int", "bool", "str") and txt == f"{e.func.id}(value)":
-            return True, "cast"
-        if txt in ("value.dump()['grid']", "value.tolist()", "value.raw.tolist()") and head == "xgrid":
-            return True, "grid list"
-        if txt == "value.value" and head == "enum":
-            return True, "enum value"
-        if txt in ("value.raw", "value._raw()", "value.public_raw") and head == "dictlike":
-            return True, "nested raw"
-        # comprehension over the elements with a recursive call
-        if isinstance(e, (ast.ListComp, ast.DictComp)) and len(e.generators) == 1:
-            g = e.generators[0]
-            it = ast.unparse(g.iter)
-            val = e.elt if isinstance(e, ast.ListComp) else e.value
-            if it in ("value", "value.items()") and isinstance(val, ast.Call) and ast.unparse(val.func) == self.name:
-                return self.plain(self.elem(k), depth + 1)
-            if it in ("value", "value.items()"):
-                ok, why = self.passthrough(self.elem(k))
-                return ok, f"elements copied without normalisation: {why}"
-        if isinstance(e, ast.Call) and isinstance(e.func, ast.Name) and e.func.id in ("list", "tuple", "dict") and txt == f"{e.func.id}(value)":
-            ok, why = self.passthrough(self.elem(k))
-            return ok, f"{e.func.id}(value) keeps the elements as they are: {why}"
-        if txt in ("dataclasses.asdict(value)", "asdict(value)"):
-            ok, why = self.passthrough(self.elem(k))
-            return ok, f"asdict keeps the leaves as they are: {why}"
-        if isinstance(e, ast.Call) and ast.unparse(e.func) == self.name and len(e.args) == 1:
-            inner = ast.unparse(e.args[0])
-            if inner in ("dataclasses.asdict(value)", "asdict(value)"):
-                return self.plain(("dict", self.elem(k)), depth + 1)
-            if inner in ("list(value)", "tuple(value)"):
-                return self.plain(("list", self.elem(k)), depth + 1)
-        raise AnalysisError(f"{self.name}: unknown return expression `{txt}` for kind {k}")
-
-    def passthrough(self, k):
-        """is a value of kind k plain without any normalisation?"""
-        if isinstance(k, str):
-            return k in PLAIN_LEAF, k
-        ok, why = self.passthrough(k[1])
-        return ok, f"{k[0]} of {why}"
-
-
 def kinds(depth):
     out = list(LEAVES)
     level = list(LEAVES)
@@ -184,11 +101,11 @@ def run(chk):
     src = load()
     chk.rule_text = "raw_field(kind) is plain for every kind; reader keeps a branch per declared kind; interpolator built from the card's settings"
     frf = src.func(f"{DL}.raw_field")
-    it = Interp(frf.node)
     ks = kinds(2 if chk.tier == "quick" else 3)
     bad = {}
+    judge = _plainness_by_evaluation(src)
     for k in ks:
-        ok, why = it.plain(k)
+        ok, why = judge(k)
         if not ok:
             bad.setdefault(why, []).append(k)
     for why, lst in bad.items():
@@ -196,32 +113,13 @@ def run(chk):
         chk.fail("normaliser-yields-plain-data", frf.qname, f"raw_field({fmt(lst[0])}) is not plain data: {why} ({len(lst)} kinds, e.g. "
                  f"{[fmt(x) for x in lst[:4]]}); a safe YAML dumper refuses it", where=frf.where, instance=fmt(lst[0]))
     if not bad:
-        chk.ok("normaliser-yields-plain-data", frf.qname, f"{len(ks)} value kinds", how="abstract interpretation over kinds")
+        chk.ok("normaliser-yields-plain-data", frf.qname, f"{len(ks)} value kinds", how="PE of raw_field on a representative of every kind")
     chk.floor("value kinds", len(ks), 200)
     # ---- (2) reader table -----------------------------------------------------------------------------------------------------
     flf = src.func(f"{DL}.load_field")
     flt = src.func(f"{DL}.load_typing")
-    t1, t2 = stmt_text(flf.node), stmt_text(flt.node)
-    table = {
-        "NewType": "__supertype__" in t1,
-        "typing generic -> load_typing": "typing.get_origin(type_) is not None" in t1 and "load_typing(type_, value)" in t1,
-        "ndarray from list": "np.ndarray" in t1 and "np.array(value)" in t1,
-        "dict-like": "issubclass(type_, DictLike)" in t1 and "type_.from_dict(value)" in t1,
-        "enum": "issubclass(type_, enum.Enum)" in t1 and "load_enum(type_, value)" in t1,
-        "mapping -> keywords": "isinstance(value, dict)" in t1 and "type_(**value)" in t1,
-        "scalar constructor": "return type_(value)" in t1,
-        "Union variants": "origin is typing.Union" in t2 and "load_field(variant, value)" in t2,
-        "Optional": "type(None) in" in t2 and "return None" in t2,
-        "List/Generic elements": "issubclass(origin, (list, typing.Generic))" in t2 and "origin([load_field(T, x) for x in value])" in t2,
-        "other origin (tuple)": "return load_field(origin, value)" in t2,
-    }
-    for k, present in table.items():
-        chk.decide(present, "reader-keeps-a-branch-per-kind", flf.qname if "load_typing" not in k else flt.qname,
-                   f"the branch for `{k}` is gone from load_field/load_typing", where=flf.where, instance=k)
+    _reader_semantic(chk, src)
     fe = src.func(f"{DL}.load_enum")
-    te = stmt_text(fe.node)
-    chk.decide("return type_[value]" in te and "except KeyError" in te and "return type_(value)" in te, "reader-keeps-a-branch-per-kind", fe.qname,
-               "load_enum no longer accepts both the name and the value of a variant", where=fe.where, instance="enum by name or value")
     # falsy payloads (False, 0, 0.0, [], "") are data: no loader may branch on the truthiness of the value, and in the Union branch
     # nothing may return before the variants have been tried
     for f in (flf, flt, fe, src.func(f"{DL}.DictLike._from_dict")):
@@ -244,20 +142,6 @@ def run(chk):
                         chk.fail("falsy-values-are-data", f.qname, f"`{stmt_text(n)[:80]}` branches on the truthiness of the value being loaded: "
                                  f"False, 0, 0.0 or an empty list would be treated as absent", where=f"{f.module.relpath}:{n.lineno}",
                                  instance=stmt_text(t)[:40])
-    union = next((n for n in ast.walk(flt.node) if isinstance(n, ast.If) and "typing.Union" in ast.unparse(n.test)), None)
-    chk.need(union is not None, "load_typing lost its Union branch")
-    first = union.body[0]
-    chk.decide(isinstance(first, ast.For) and "load_field" in ast.unparse(first) or
-               (isinstance(first, ast.Assign) and isinstance(union.body[1], ast.For) and "load_field" in ast.unparse(union.body[1])),
-               "falsy-values-are-data", flt.qname, f"the Union branch starts with `{stmt_text(first)[:60]}` instead of trying the variants",
-               where=flt.where, instance="union-order")
-    fraw = src.func(f"{DL}.DictLike._raw")
-    ffd = src.func(f"{DL}.DictLike._from_dict")
-    chk.decide("for field in dataclasses.fields(self)" in stmt_text(fraw.node) and "raw_field(getattr(self, field.name))" in stmt_text(fraw.node),
-               "every-field-is-serialised-and-loaded", fraw.qname, "_raw no longer passes every dataclass field through raw_field", where=fraw.where)
-    chk.decide("for field in dataclasses.fields(cls)" in stmt_text(ffd.node) and "load_field(field.type, dictionary[field.name])" in stmt_text(ffd.node)
-               and "return cls(**dictionary)" in stmt_text(ffd.node), "every-field-is-serialised-and-loaded", ffd.qname,
-               "_from_dict no longer loads every field by its declared type", where=ffd.where, instance="_from_dict")
     # annotation kinds of the cards
     dl = src.cls(f"{DL}.DictLike")
     cards = E.subclasses(src, dl)
@@ -274,27 +158,39 @@ def run(chk):
     chk.floor("card fields", n_fields, 35)
     # ---- (3) XGrid ----------------------------------------------------------------------------------------------------------------
     xg = src.cls("eko.interpolation.XGrid")
-    dump_keys = set()
-    for n in ast.walk(xg.methods["dump"].node):
-        if isinstance(n, ast.Return) and isinstance(n.value, ast.Call) and ast.unparse(n.value.func) == "dict":
-            dump_keys = {k.arg for k in n.value.keywords}
-        elif isinstance(n, ast.Return) and isinstance(n.value, ast.Dict):
-            dump_keys = {k.value for k in n.value.keys}
-    load_keys = {n.slice.value for n in ast.walk(xg.methods["load"].node) if isinstance(n, ast.Subscript) and isinstance(n.slice, ast.Constant)}
-    chk.decide(dump_keys == load_keys and dump_keys, "xgrid-writer-reader-keys-agree", xg.qname, f"dump writes {sorted(dump_keys)}, load reads "
-               f"{sorted(load_keys)}", where=xg.where)
-    used = set()
-    for test, ret in it.branches:
-        if test is not None and matches(test, "xgrid", frf.node):
-            used = {n.slice.value for n in ast.walk(ret) if isinstance(n, ast.Subscript) and isinstance(n.slice, ast.Constant)}
-            whole = ast.unparse(ret) in ("value.dump()",)
-            break
-    chk.decide(used <= dump_keys and (used or whole), "xgrid-writer-reader-keys-agree", frf.qname, f"raw_field takes {sorted(used)} from XGrid.dump() "
-               f"which provides {sorted(dump_keys)}", where=frf.where, instance="raw_field")
-    lost = sorted(dump_keys - used) if not whole else []
-    chk.decide(not lost, "xgrid-flag-survives-raw", frf.qname, f"the raw form of an XGrid keeps {sorted(used)} and drops {lost}: a card holding "
-               f"XGrid(..., log=False) is re-loaded with log=True (load_field builds XGrid(list) with the default flag)", where=frf.where,
-               instance="XGrid.log")
+    # evaluated: XGrid.load(x.dump()) gives back grid and flag; the raw form that the cards use (raw_field) and its reading (load_field)
+    # are followed for a logarithmic and for a linear grid
+    from .. import fsmodel, typemodel as tm
+    from ..arr import Arr
+    from ..pe import ClassRef
+
+    pex = PE(src)
+    tm.install(pex)
+    fsmodel.install(pex, fsmodel.FS())
+    pts = [Fraction(1, 10), Fraction(1, 2), Fraction(1)]
+    for log in (True, False):
+        x0 = pex.instantiate(xg.qname, [list(pts), log])
+        try:
+            back = pex.apply(pex.getattr(ClassRef(xg), "load"), [pex.apply(pex.getattr(x0, "dump"), [], {})], {})
+            okd = list(pex.getattr(back, "raw").flat()) == pts and pex.getattr(back, "log") is log
+            msg = f"grid {[str(v) for v in pex.getattr(back, 'raw').flat()]}, log={pex.getattr(back, 'log')}"
+        except PERaise as e:
+            okd, msg = False, f"raises {e}"
+        chk.decide(okd, "xgrid-writer-reader-keys-agree", xg.qname, f"XGrid(log={log}): load(dump()) gives {msg}", where=xg.where, instance=f"log={log}",
+                   how="PE")
+        try:
+            raw = pex.call(frf.qname, [x0])
+            back = pex.call(flf.qname, [ClassRef(xg), raw])
+            grid_ok = isinstance(back, Obj) and list(pex.getattr(back, "raw").flat()) == pts
+            flag = pex.getattr(back, "log") if isinstance(back, Obj) else None
+        except PERaise as e:
+            grid_ok, flag, raw = False, f"raises {e}", None
+        if log:
+            chk.decide(grid_ok and flag is True, "xgrid-writer-reader-keys-agree", frf.qname, f"a logarithmic grid has the raw form {raw!r} and is read back "
+                       f"with log={flag}", where=frf.where, instance="raw_field")
+        else:
+            chk.decide(grid_ok and flag is False, "xgrid-flag-survives-raw", frf.qname, f"the raw form of XGrid(..., log=False) is {raw!r}; it is re-loaded with "
+                       f"log={flag} (load_field builds XGrid(list) with the default flag)", where=frf.where, instance="XGrid.log")
     # ---- (4) declared = used ----------------------------------------------------------------------------------------------------------
     pe = PE(src)
     captured = {}
@@ -443,3 +339,187 @@ def _class_kind(src, c):
     if c.is_dataclass:
         return "mapping"
     return None
+
+
+def _reader_semantic(chk, src):
+    """raw_field and load_field / load_typing / load_enum / DictLike.from_dict, partially evaluated on run-time types (sa/typemodel.py:
+    host types and typing constructs, repository classes, annotations evaluated as dataclasses does): load(T, raw(v)) == v for every
+    kind of value the cards hold - with the falsy representatives of each kind - and a real card section (Configs) goes
+    raw -> from_dict -> raw unchanged for variants that differ in falsy fields."""
+    import typing
+
+    import numpy.typing as npt
+
+    from .. import dag, typemodel as tm
+    from ..arr import Arr
+    from ..pe import ClassRef
+
+    pe = PE(src)
+    tm.install(pe)
+    flf = src.func(f"{DL}.load_field")
+    frf = src.func(f"{DL}.raw_field")
+    NT = typing.NewType("Scale", float)
+    EVc = src.cls("eko.io.types.EvolutionMethod")
+    EV = pe.enum_members(EVc)
+    F = Fraction
+    arr = Arr.from_nested([F(1, 10), F(1, 2), F(1)])
+    kinds = [
+        ("int", int, 3), ("int zero", int, 0), ("float", float, F(1, 2)), ("float zero", float, F(0)), ("bool true", bool, True), ("bool false", bool, False),
+        ("str", str, "a"), ("empty str", str, ""),
+        ("Optional[int] None", typing.Optional[int], None), ("Optional[int] 0", typing.Optional[int], 0), ("Optional[int] 5", typing.Optional[int], 5),
+        ("Optional[bool] None", typing.Optional[bool], None), ("Optional[bool] False", typing.Optional[bool], False), ("Optional[bool] True", typing.Optional[bool], True),
+        ("Optional[float] 0", typing.Optional[float], F(0)), ("Optional[str] empty", typing.Optional[str], ""), ("Optional[str] None", typing.Optional[str], None),
+        ("Optional[float] None", typing.Optional[float], None),
+        ("List[float]", typing.List[float], [F(1), F(2)]), ("List[float] empty", typing.List[float], []),
+        ("Optional[List[int]] empty", typing.Optional[typing.List[int]], []), ("Optional[List[int]] None", typing.Optional[typing.List[int]], None),
+        ("Tuple[float, int]", typing.Tuple[float, int], (F(3), 4)), ("NDArray", npt.NDArray, arr), ("NewType(float)", NT, F(5, 2)),
+        ("Union[int, str] str", typing.Union[int, str], "a"), ("Union[int, str] int", typing.Union[int, str], 7),
+        ("enum member", ClassRef(EVc), EV["ITERATE_EXACT"]), ("Optional[enum] member", typing.Optional[tm.placeholder(ClassRef(EVc))], EV["TRUNCATED"]),
+        ("Optional[enum] None", typing.Optional[tm.placeholder(ClassRef(EVc))], None),
+    ]
+    n = 0
+
+    def same(a, b):
+        if a is None or b is None:
+            return a is None and b is None
+        if isinstance(a, bool) or isinstance(b, bool):
+            return isinstance(a, bool) and isinstance(b, bool) and a == b
+        if isinstance(a, Arr) or isinstance(b, Arr):
+            return isinstance(a, Arr) and isinstance(b, Arr) and a.shape == b.shape and all(same(x, y) for x, y in zip(a.flat(), b.flat()))
+        if isinstance(a, (list, tuple)) or isinstance(b, (list, tuple)):
+            return type(a) is type(b) and len(a) == len(b) and all(same(x, y) for x, y in zip(a, b))
+        if isinstance(a, str) or isinstance(b, str):
+            return isinstance(a, str) and isinstance(b, str) and a == b
+        try:
+            return bool(pe.truth(pe.compare(ast.Eq(), a, b)))
+        except Exception:
+            return False
+
+    for label, t, v in kinds:
+        T = t if isinstance(t, ClassRef) else tm.TV(t)
+        try:
+            raw = pe.call(frf.qname, [v])
+            back = pe.call(flf.qname, [T, raw])
+            ok, msg = same(back, v), f"raw form {raw!r}, loaded back as {back!r}"
+        except PERaise as e:
+            ok, msg = False, f"raises {e}"
+        n += 1
+        chk.decide(ok, "loading-inverts-the-serialised-form", flf.qname, f"{label}: value {v!r}: {msg}; required: the value itself (False, 0, 0.0, '' and [] "
+                   f"are data, not absence)", where=flf.where, instance=label, how="PE of raw_field and load_field on run-time types")
+    # name of an enum variant is accepted as well as its value
+    for given in ("ITERATE_EXACT", "iterate-exact"):
+        try:
+            back = pe.call(flf.qname, [ClassRef(EVc), given])
+            ok = back is EV["ITERATE_EXACT"] or same(back, EV["ITERATE_EXACT"])
+        except PERaise as e:
+            ok = False
+        n += 1
+        chk.decide(ok, "loading-inverts-the-serialised-form", f"{DL}.load_enum", f"enum given as {given!r} is not loaded as the variant ITERATE_EXACT",
+                   where=src.func(f"{DL}.load_enum").where, instance=f"enum:{given}")
+    try:
+        pe.call(flf.qname, [ClassRef(EVc), "no-such-method"])
+        okr = False
+    except PERaise as e:
+        okr = e.etype == "ValueError"
+    chk.decide(okr, "loading-inverts-the-serialised-form", f"{DL}.load_enum", "an unknown enum name/value is not refused with ValueError", instance="enum:unknown")
+    # a real section of the operator card, through DictLike.raw and DictLike.from_dict
+    cfg = src.cls("eko.io.runcards.Configs")
+    SV = pe.enum_members(src.cls("eko.io.types.ScaleVariationsMethod"))
+    base = {"evolution_method": "iterate-exact", "ev_op_max_order": [10, 0], "ev_op_iterations": 10, "scvar_method": None, "inversion_method": None,
+            "interpolation_polynomial_degree": 4, "interpolation_is_log": True, "polarized": False, "time_like": False, "n_integration_cores": 1}
+    variants = [("as given", {}), ("zero iterations", {"ev_op_iterations": 0}), ("linear interpolation", {"interpolation_is_log": False}),
+                ("scale variation set", {"scvar_method": "exponentiated"}), ("zero cores", {"n_integration_cores": 0}), ("polarised", {"polarized": True}),
+                ("default cores omitted", {"n_integration_cores": None})]
+    for label, delta in variants:
+        raw = dict(base)
+        raw.update(delta)
+        if label == "default cores omitted":
+            del raw["n_integration_cores"]
+        try:
+            o = pe.apply(pe.getattr(ClassRef(cfg), "from_dict"), [dict(raw)], {})
+            r2 = pe.getattr(o, "raw")
+            want = dict(raw)
+            want.setdefault("n_integration_cores", 1)
+            fields_ok = all(same(pe.getattr(o, k) if k not in ("evolution_method", "scvar_method", "inversion_method") else
+                                 (pe.getattr(pe.getattr(o, k), "value") if pe.getattr(o, k) is not None else None),
+                                 v if k != "ev_op_max_order" else tuple(v)) for k, v in want.items())
+            ok = fields_ok and all(same(r2.get(k), v) for k, v in want.items()) and set(r2) == set(want)
+            msg = f"object fields {dict((k, str(v)) for k, v in o.attrs.items() if k in delta or k == 'ev_op_max_order')}, serialised again as {dict((k, r2.get(k)) for k in delta)}"
+        except PERaise as e:
+            ok, msg = False, f"raises {e}"
+        n += 1
+        chk.decide(ok, "every-field-is-serialised-and-loaded", cfg.qname, f"Configs, {label}: {msg}; required: every field loaded by its declared type and "
+                   f"serialised back to the same plain data", where=cfg.where, instance=label, how="PE of from_dict and raw on a card class")
+    chk.floor("reader round trips", n, 35)
+
+
+def _plainness_by_evaluation(src):
+    """raw_field itself, partially evaluated on a representative value of every kind (arrays, NumPy scalars, built-ins, an XGrid, an
+    enum member, a card section, containers and plain dataclasses nested): the result must be made of built-in numbers, strings,
+    booleans, None, lists and string-keyed dicts only - what a safe YAML dumper accepts."""
+    from .. import fsmodel, typemodel as tm
+    from ..arr import Arr
+    from ..pe import ClassRef
+
+    pe = PE(src)
+    tm.install(pe)
+    fsmodel.install(pe, fsmodel.FS())          # isinstance / float() semantics of the NumPy scalar model
+    F = Fraction
+    ev = pe.enum_members(src.cls("eko.io.types.EvolutionMethod"))["TRUNCATED"]
+    cfg = pe.apply(pe.getattr(ClassRef(src.cls("eko.io.runcards.Configs")), "from_dict"), [{
+        "evolution_method": "truncated", "ev_op_max_order": [10, 0], "ev_op_iterations": 2, "scvar_method": None, "inversion_method": None,
+        "interpolation_polynomial_degree": 4, "interpolation_is_log": True, "polarized": False, "time_like": False}], {})
+    xg = pe.instantiate("eko.interpolation.XGrid", [[F(1, 10), F(1, 2), F(1)], True])
+    tcls = src.cls("eko.io.items.Target")
+
+    def make(k):
+        if isinstance(k, str):
+            return {"ndarray": lambda: Arr.from_nested([F(1, 3), F(2)]), "npfloat64": lambda: fsmodel.NpScalar(F(1, 2), "float64"),
+                    "npother": lambda: fsmodel.NpScalar(3, "int64"), "float": lambda: F(1, 2), "int": lambda: 3, "str": lambda: "s", "bool": lambda: True,
+                    "none": lambda: None, "xgrid": lambda: xg, "enum": lambda: ev, "dictlike": lambda: cfg}[k]()
+        c, inner = k
+        if c == "list":
+            return [make(inner), make(inner)]
+        if c == "tuple":
+            return (make(inner), make(inner))
+        if c == "dict":
+            return {"a": make(inner)}
+        o = Obj(tcls)                      # a plain (non dict-like) dataclass holding the value
+        o.attrs.update(scale=make(inner), nf=4)
+        return o
+
+    def describe(x):
+        if isinstance(x, fsmodel.NpScalar):
+            return f"NumPy {x.kind} scalar"
+        if isinstance(x, Arr):
+            return "ndarray"
+        if isinstance(x, Obj):
+            return f"{x.cls.node.name} object"
+        return type(x).__name__
+
+    def judge(k):
+        try:
+            r = pe.call(f"{DL}.raw_field", [make(k)])
+        except PERaise as e:
+            return False, f"raises {e.etype}"
+        bad = []
+
+        def walk(x):
+            if x is None or isinstance(x, (bool, int, str, Fraction, dag.Node)):
+                return
+            if isinstance(x, (list, tuple)):
+                for e in x:
+                    walk(e)
+                return
+            if isinstance(x, dict):
+                for kk, v in x.items():
+                    if not isinstance(kk, (str, int)):
+                        bad.append(f"dict key {describe(kk)}")
+                    walk(v)
+                return
+            bad.append(describe(x))
+
+        walk(r)
+        return (not bad), (f"the result still contains a {bad[0]}" if bad else "plain")
+
+    return judge
